@@ -5,7 +5,7 @@
   (Model/Export.lean); `directL` = `compare(method="direct")` on operation lists (the driver checks on every input that
   it agrees with the model's walk over the simulated DAG and with the implementation); `circuitIsIsomorphic`,
   `isoNormalised` = the isomorphism comparison as coded (simulated DAG with ordered parallel edges, `control_target`
-  attributes, `node_match`, first-key `edge_match`); `removeRedundantWith`, `storageAddAll` = the filters.
+  attributes, `node_match`, `edge_match` on the multiset of roles of the parallel edges); `removeRedundantWith`, `storageAddAll` = the filters.
   Reference notions: `wiresEq` (same registers, same executed operations on every quantum register) and `renEq`
   (the same up to a renaming of registers within each type).  That equal wire sequences compile to equal states is the
   commutation fact of C13/C01, evaluated here by the direct oracle of the harness (all measurement branches).
